@@ -63,6 +63,8 @@ def r1(ctx, F, hub):
                 ctx.undecided('C10.R1', '%s removes entries it found by listing the served tree (a clean-up): which files those are is not decided' % where)
                 continue
             ctx.check(ok, 'C10.R1', key, 'remove of a staging or live name', 'remove_file on a %s path' % classes[0], term_loc(b, bb))
+        elif short == 'remove_dir':
+            ctx.ok('C10.R1', key, 'removal of an empty directory: no file content is created, changed or removed', term_loc(b, bb))
         elif short in ('create_dir_all', 'create_dir'):
             ok = classes[0] in ('control', 'parent')
             ctx.check(ok, 'C10.R1', key, 'directory creation (content-free)', 'directory created at a %s path' % classes[0], term_loc(b, bb))
